@@ -244,11 +244,15 @@ def run(R):
         fp = tonic.body(re.compile(r'transport::server::Fuse<F> as std::future::Future>::poll$'))
         R.saw(fp)
         fam = [fp] + [c for c in tonic.children(fp) if c.kind == 'closure']
+        fzf = [f_['n'] for f_ in tonic.adt('transport::server::Fuse')['variants'][0]['fields'] if f_['ty'].startswith('std::option::Option<') or f_['ty'].startswith('Option<')]
+        if len(fzf) != 1:
+            raise CheckError('UNRECOGNISED: Fuse has %d Option fields' % len(fzf))
+        SLOT = fzf[0]
         sets = [(fb, bb, t) for fb in fam for bb, t in fb.calls(name='set')]
         oks = False
         for fb, bb, t in sets:
             v = strip_refs(fb.origin(t['args'][1]))
-            oks = v[0] == 'agg' and v[1].get('variant') == 'None' and ('inner' in show(fb.origin(t['args'][0])) or recv_place_fields(fb, t['args'][0])[-1:] == ['inner'])
+            oks = v[0] == 'agg' and v[1].get('variant') == 'None' and (mentions_field(resolve_env(tonic, fb, fb.origin(t['args'][0])), SLOT) or recv_place_fields(fb, t['args'][0])[-1:] == [SLOT])
         mp = fp.calls(pat='Poll', name='map')
         okm = len(mp) == 1 and is_call(strip_refs(fp.origin(mp[0][1]['args'][0])), name='poll') and mp[0][1]['dest']['l'] == 0
         if not okm and len(sets) == 1 and sets[0][0] is fp:
@@ -262,5 +266,5 @@ def run(R):
             okm = len(pol) == 1 and on_ready and bool(ready_rets) and all(fp.dominates(sb_, rb_) for rb_ in ready_rets)
         R.check(len(sets) == 1 and oks and okm, 'C13.R5', 'cleared-when-ready', site(fp), 'the slot is cleared exactly when the inner future returned Ready (fut.poll(cx).map(|o| { inner.set(None); o }) or the spelled-out form): set sites %d, clears inner %r, tied to the Ready result %r' % (len(sets), oks, okm))
         pend = [bb for bb in writers_of(fp, 0) if any(w[0] == 'variant' and w[2] == 'Pending' for w in block_writes(fp, bb, 0))]
-        okp = any(any(tm[0] == 'discr' and vals in ([0], ['else']) and ('as_pin_mut' in show(tm) or 'inner' in show(tm)) for s, vals, tm in fp.edge_guards(bb)) for bb in pend)
+        okp = any(any(tm[0] == 'discr' and vals in ([0], ['else']) and (term_contains(tm, lambda x: is_call(x, name='as_pin_mut')) or mentions_field(tm, SLOT)) for s, vals, tm in fp.edge_guards(bb)) for bb in pend)
         R.check(okp, 'C13.R5', 'empty-slot-pending', site(fp), 'None -> Poll::Pending: %r' % okp)
